@@ -30,12 +30,12 @@ fn insphere_to_i32(o: InSphere) -> i32 {
 }
 
 /// Exact orientation determinant |x y 1| (rows a, b, c).
-fn exact_orient2(p: &[[i64; 2]; 3]) -> i64 {
+fn exact_orient2(p: &[[i32; 2]; 3]) -> i32 {
     det3([[p[0][0], p[0][1], 1], [p[1][0], p[1][1], 1], [p[2][0], p[2][1], 1]])
 }
 
 /// Exact orientation determinant |x y z 1| (rows a, b, c, d).
-fn exact_orient3(p: &[[i64; 3]; 4]) -> i64 {
+fn exact_orient3(p: &[[i32; 3]; 4]) -> i32 {
     det4([
         [p[0][0], p[0][1], p[0][2], 1],
         [p[1][0], p[1][1], p[1][2], 1],
@@ -45,27 +45,27 @@ fn exact_orient3(p: &[[i64; 3]; 4]) -> i64 {
 }
 
 /// Exact in-circle determinant |x y x²+y² 1| (rows a, b, c, q).
-fn exact_incircle(p: &[[i64; 2]; 3], q: [i64; 2]) -> i64 {
-    let row = |v: [i64; 2]| [v[0], v[1], v[0] * v[0] + v[1] * v[1], 1];
+fn exact_incircle(p: &[[i32; 2]; 3], q: [i32; 2]) -> i32 {
+    let row = |v: [i32; 2]| [v[0], v[1], v[0] * v[0] + v[1] * v[1], 1];
     det4([row(p[0]), row(p[1]), row(p[2]), row(q)])
 }
 
 /// Symbolic grid point, optionally scaled by a dyadic factor 2^-k (exact).
-fn grid_pt2(g: i32, scale: f64) -> ([i64; 2], Point<f64, 2>) {
+fn grid_pt2(g: i32, scale: f64) -> ([i32; 2], Point<f64, 2>) {
     let x = any_grid(g);
     let y = any_grid(g);
-    ([i64::from(x), i64::from(y)], Point::new([f64::from(x) * scale, f64::from(y) * scale]))
+    ([x, y], Point::new([f64::from(x) * scale, f64::from(y) * scale]))
 }
 
-fn fixed_pt2(x: i32, y: i32, scale: f64) -> ([i64; 2], Point<f64, 2>) {
-    ([i64::from(x), i64::from(y)], Point::new([f64::from(x) * scale, f64::from(y) * scale]))
+fn fixed_pt2(x: i32, y: i32, scale: f64) -> ([i32; 2], Point<f64, 2>) {
+    ([x, y], Point::new([f64::from(x) * scale, f64::from(y) * scale]))
 }
 
-fn grid_pt3(g: i32) -> ([i64; 3], Point<f64, 3>) {
+fn grid_pt3(g: i32) -> ([i32; 3], Point<f64, 3>) {
     let x = any_grid(g);
     let y = any_grid(g);
     let z = any_grid(g);
-    ([i64::from(x), i64::from(y), i64::from(z)], Point::new([f64::from(x), f64::from(y), f64::from(z)]))
+    ([x, y, z], Point::new([f64::from(x), f64::from(y), f64::from(z)]))
 }
 
 // ---------------------------------------------------------------------------
@@ -190,7 +190,7 @@ macro_rules! orient3d_cube {
             // bound: D=3 orientation, first vertex fixed, 3 symbolic points in [-G, G]^3
             #[kani::unwind(6)]
             fn $name() {
-                let ia = [$ax as i64, $ay as i64, $az as i64];
+                let ia = [$ax as i32, $ay as i32, $az as i32];
                 let pa = Point::new([$ax as f64, $ay as f64, $az as f64]);
                 let (ib, pb) = grid_pt3($g);
                 let (ic, pc) = grid_pt3($g);
@@ -217,7 +217,7 @@ orient3d_cube!(c12_orient3d_fast_g1_cube_corner, 1, FastKernel<f64>, [1, -1, 1])
 // In-sphere, D = 2 — cubes: the first simplex vertex is fixed per instance
 // ---------------------------------------------------------------------------
 
-fn check_insphere2(exact_o: i32, exact_in: i64, got: Result<i32, ()>) {
+fn check_insphere2(exact_o: i32, exact_in: i32, got: Result<i32, ()>) {
     if exact_o == 0 {
         // exactly degenerate simplex: no strict answer
         assert!(matches!(got, Err(()) | Ok(0)), "degenerate simplex: Err or BOUNDARY, never a strict answer");
